@@ -57,6 +57,15 @@ fn main() {
                 }
                 i += 1;
             }
+            // watchdog: a library call that never returns (a rejection loop that cannot accept any more)
+            // must not hang the check forever
+            let limit_s: u64 = std::env::var("VERIF_WATCHDOG_S").ok().and_then(|s| s.parse().ok()).unwrap_or(if tier == Tier::Thorough { 4 * 3600 } else { 1200 });
+            let wid = id.clone();
+            std::thread::spawn(move || {
+                std::thread::sleep(std::time::Duration::from_secs(limit_s));
+                println!("MACHINERY-ERROR: watchdog: check {} did not finish within {} s (a library call may not terminate)", wid, limit_s);
+                std::process::exit(2);
+            });
             // run on a big stack: key generation recurses over big-integer polynomials
             let id2 = id.clone();
             let h = std::thread::Builder::new()
